@@ -108,7 +108,13 @@ Definition required_caps (mods : list module) : list cap :=
 (* wiring_runtime.py                                                       *)
 
 Record tval := mkTV { tv_dt : dtype; tv_il : integ; tv_val : Z }.      (* TypedValue *)
-Inductive oval := Raw (v : Z) | Lab (t : tval).         (* a raw value, or a TypedValue *)
+(* what a handler returns for a port / what is given as an external input: a raw Python value,
+   a TypedValue, or a raw value that is not a TypedValue but says something about its own label
+   (an ApprovalToken with its `integrity` field, any object or dict with `data_type` /
+   `integrity` / `value` attributes or keys, a list holding a TypedValue): [d], [i] are the data
+   type and the integrity it claims, if any.  The executor looks at TypedValues only. *)
+Inductive oval := Raw (v : Z) | Lab (t : tval)
+                | RawClaim (d : option dtype) (i : option integ) (v : Z).
 
 Inductive err :=
   (* WiringError, by message *)
@@ -173,6 +179,7 @@ Definition coerce_output (v : oval) (p : ptype) : err + tval :=
       if negb (dt_eqb (tv_dt t) (fst p)) then inl EOutType
       else if negb (il_eqb (tv_il t) (snd p)) then inl EOutInteg
       else inr t
+  | RawClaim _ _ x => inr (mkTV (fst p) (snd p) x)      (* not a TypedValue: the port's label *)
   end.
 
 (* _coerce_input: a TypedValue must have the type and at least the integrity *)
@@ -183,6 +190,7 @@ Definition coerce_input (v : oval) (p : ptype) : err + tval :=
       if negb (dt_eqb (tv_dt t) (fst p)) then inl EInType
       else if il_ltb (tv_il t) (snd p) then inl EInInteg
       else inr t
+  | RawClaim _ _ x => inr (mkTV (fst p) (snd p) x)
   end.
 
 Fixpoint lookup (k : nat) (kv : list (nat * oval)) : option oval :=
@@ -395,6 +403,48 @@ Definition execute (ext : list (nat * list (nat * oval))) : outcome * list call 
 End Exec.
 
 (* ---------------------------------------------------------------------- *)
+(* DiagramExecutors over one diagram, over time: register_module and execute in any order, and
+   DiagramExecutor(diagram) for another executor (used from then on).  The only state of an
+   executor is `_handlers` (a fresh dict per executor); `module_inputs`, `executed`, the report are
+   locals of execute(), so an execution neither reads nor leaves anything behind, and nothing is
+   shared between executors or kept with the diagram. *)
+
+Definition extin := list (nat * list (nat * oval)).           (* external_inputs *)
+
+Inductive xop :=
+  | XReg (m : nat) (h : handler)                  (* register_module(name, handler) *)
+  | XExec (ext : extin) (enforce : bool)          (* execute(ext, enforce_static_checks) *)
+  | XNew.                                         (* DiagramExecutor(diagram): no handlers yet *)
+
+(* what an operation did: register_module returned (true) or raised WiringError "Unknown
+   module" (false); execute ran with the handler table [hs] and ended with [res] *)
+Inductive xev :=
+  | EvReg (ok : bool)
+  | EvNew
+  | EvExec (hs : nat -> option handler) (ext : extin) (enforce : bool) (res : outcome * list call).
+
+Definition register (mods : list module) (hs : nat -> option handler) (m : nat) (h : handler)
+  : option (nat -> option handler) :=
+  match nth_error mods m with
+  | Some _ => Some (fun k => if Nat.eqb k m then Some h else hs k)
+  | None => None
+  end.
+
+Fixpoint run_ops (mods : list module) (wires : list wire) (hs : nat -> option handler)
+         (ops : list xop) : list xev :=
+  match ops with
+  | [] => []
+  | XReg m h :: rest =>
+      match register mods hs m h with
+      | Some hs' => EvReg true :: run_ops mods wires hs' rest
+      | None => EvReg false :: run_ops mods wires hs rest
+      end
+  | XExec ext enforce :: rest =>
+      EvExec hs ext enforce (execute mods wires hs enforce ext) :: run_ops mods wires hs rest
+  | XNew :: rest => EvNew :: run_ops mods wires (fun _ => None) rest
+  end.
+
+(* ---------------------------------------------------------------------- *)
 (* scripted handlers and canonical observations for the correspondence     *)
 
 Inductive hscript := HSNone | HSRaise | HSRet (items : list (nat * oval)).
@@ -411,6 +461,7 @@ Definition add_payload (s : Z) (v : oval) : oval :=
   match v with
   | Raw x => Raw (x + s)
   | Lab t => Lab (mkTV (tv_dt t) (tv_il t) (tv_val t + s))
+  | RawClaim d i x => RawClaim d i (x + s)
   end.
 
 Definition interp_h (s : hscript) : option handler :=
@@ -427,9 +478,18 @@ Definition cm_script (c : cmodule) : hscript := let '(_, _, _, h) := c in h.
 
 (* modules, attempted connects, wires appended to `diagram.wires` directly (NOT through connect: such a
    diagram is outside the property, these cases only tie [deliver]'s per-wire runtime checks to the code;
-   [] in every case the property speaks about), external inputs, enforce_static_checks *)
+   [] in every case the property speaks about), external inputs, enforce_static_checks of the first
+   execution; then further register_module / execute calls on the same executor *)
+Inductive sop := SReg (m : nat) (s : hscript) | SExec (ext : extin) (enforce : bool) | SNew.
+Definition xops_of (l : list sop) : list xop :=
+  flat_map (fun o => match o with
+                     | SReg m s => match interp_h s with Some h => [XReg m h] | None => [] end
+                     | SExec e f => [XExec e f]
+                     | SNew => [XNew]
+                     end) l.
+
 Definition case :=
-  (list cmodule * list wire * list wire * list (nat * list (nat * oval)) * bool)%type.
+  (list cmodule * list wire * list wire * extin * bool * list sop)%type.
 
 Definition zn (n : nat) : Z := Z.of_nat n.
 
@@ -452,15 +512,11 @@ Definition row_obs (r : row) : list Z :=
 Definition caps_obs (l : list cap) : list Z :=
   map (fun c => zn (cap_code c)) (filter (fun c => cap_mem c l) all_caps).
 
-Definition run_case (c : case) : list (list Z) :=
-  let '(cms, attempts, forced, ext, enforce) := c in
-  let mods := map cm_module cms in
-  let hs := fun m => match nth_error cms m with Some cm => interp_h (cm_script cm) | None => None end in
-  let wires := build mods attempts ++ forced in
-  let '(out, calls) := execute mods wires hs enforce ext in
-  [ map (fun w => cerr_code (connect_check mods w)) attempts;
-    caps_obs (required_caps mods);
-    [ match out with Report _ _ => 0%Z | Raised e => err_code e | OutOfFuel => (-1)%Z end ];
+(* one execution: exception class, number of handler invocations, each invocation's input row,
+   and for a report the execution order and every module's recorded inputs and outputs *)
+Definition exec_obs (res : outcome * list call) : list (list Z) :=
+  let '(out, calls) := res in
+  [ [ match out with Report _ _ => 0%Z | Raised e => err_code e | OutOfFuel => (-1)%Z end ];
     [ zn (length calls) ] ]
   ++ map (fun cl : call => zn (fst cl) :: row_obs (snd cl)) calls
   ++ match out with
@@ -470,3 +526,19 @@ Definition run_case (c : case) : list (list Z) :=
                 zn m :: zn (length ins) :: row_obs ins ++ flat_map tv_obs outs) runs
      | _ => []
      end.
+
+Definition ev_obs (e : xev) : list (list Z) :=
+  match e with
+  | EvReg ok => [ [ (-5)%Z; if ok then 0%Z else 1%Z ] ]
+  | EvNew => [ [ (-7)%Z ] ]
+  | EvExec _ _ _ res => [ (-6)%Z ] :: exec_obs res
+  end.
+
+Definition run_case (c : case) : list (list Z) :=
+  let '(cms, attempts, forced, ext, enforce, ops) := c in
+  let mods := map cm_module cms in
+  let hs := fun m => match nth_error cms m with Some cm => interp_h (cm_script cm) | None => None end in
+  let wires := build mods attempts ++ forced in
+  [ map (fun w => cerr_code (connect_check mods w)) attempts;
+    caps_obs (required_caps mods) ]
+  ++ flat_map ev_obs (run_ops mods wires hs (XExec ext enforce :: xops_of ops)).
